@@ -57,6 +57,8 @@ func c13Canon(v any) any {
 		return x
 	case string:
 		return c13CanonStr(x)
+	case c13NoEscStr:
+		return c13CanonStr(string(x))
 	case json.Number:
 		return c13CanonNum(string(x))
 	case int:
